@@ -920,6 +920,7 @@ def check_C06(tier, seed):
     envs = envs_for(rnd, tier, 14, 120)
     per_env = 60 if tier == 'quick' else 160
     tally = {'inputs': 0, 'accepted': 0, 'stable': 0}
+    nf = {'accepted_by_model': 0, 'normal_form_after_normalisation': 0, 'already_normal_form': 0}
 
     def oracle(env, lines, c_out):
         out = []
@@ -949,7 +950,20 @@ def check_C06(tier, seed):
             else:
                 tally['stable'] += 1
         return out
-    run_corr_streams(run, ctx, rnd, envs, per_env, st, [lambda r, e, s, n: stream_unpack(r, e, s, n, op='RT')], 'rt', oracle)
+    def rt_and_nf(r, e, s, n):
+        lines = stream_unpack(r, e, s, n, op='RT')
+        # hypothesis of the stability theorem (C06_stable_when_normal_form), evaluated by the extracted predicates
+        ul = ['UNORM ' + l.split(' ', 1)[1] for l in lines]
+        rc, out, err = run_driver(ctx.model, e.text() + '\n'.join(ul) + '\n', 'c06n')
+        for o in out:
+            t = o.split()
+            if len(t) == 3:
+                nf['accepted_by_model'] += 1
+                nf['normal_form_after_normalisation'] += int(t[1]); nf['already_normal_form'] += int(t[2])
+        return lines
+    run_corr_streams(run, ctx, rnd, envs, per_env, st, [rt_and_nf], 'rt', oracle)
+    run.cov['theorem_hypothesis'] = dict(nf, note='accepted inputs whose parse result, normalised (Impl/Norm.v), satisfies canon_msg: for these the stability '
+                                                  'theorem applies; the others (e.g. unknown field numbers >= 2^29 reached through 5-byte keys) rest on the oracle alone')
     run.cov['stability'] = tally
     finish_stats(run, st, 'random schemas x inputs of every kind (special inputs: empty, padded keys, zero-field keys, over-long varints, wire-type mismatches for bool; '
                           'canonical; re-encoded; corrupted; random bytes): RT = unpack, then message_check, get_packed_size, pack, pack_to_buffer, unpack of the result, pack again; '
